@@ -95,6 +95,15 @@ func c10Specs() []gram.Named {
 	nums.HasUnion = true
 	out = append(out, gram.Named{Name: "numbers-tags", Spec: nums})
 
+	// identifiers that happen to spell directive keywords (without the %) are ordinary names
+	kw := gram.Parse("start", nil, "start: left token right | type ; type: prec union | ")
+	kw.Start = "start"
+	kw.Tokens = []gram.TokDecl{{Name: "left"}, {Name: "token"}, {Name: "right", Num: 70}, {Name: "prec"}, {Name: "union"}, {Name: "nonassoc"}}
+	kw.Prec = []gram.PrecLevel{{Assoc: "left", Toks: []string{"left", "right"}}, {Assoc: "right", Toks: []string{"prec"}}}
+	kw.Union = " v int "
+	kw.HasUnion = true
+	kw.Types = []gram.TypeDecl{{Tag: "v", Names: []string{"start", "type"}}}
+	out = append(out, gram.Named{Name: "keyword-names", Spec: kw})
 	for _, n := range gram.Families() {
 		switch n.Name {
 		case "slr-expr", "nullable-chain", "ambig-expr-prec", "nonassoc-cmp", "lalr-not-nqlalr", "list-of-lists", "prec-literal", "duplicate-rule", "default-start":
@@ -117,7 +126,7 @@ func c10Work(w *Worker) {
 		w.Count("specifications", int64(len(specs)))
 	}
 	for si, n := range specs {
-		small := si >= 6 // class grammars and families: fewer option combinations
+		small := si >= 7 // class grammars and families: fewer option combinations
 		for oi := 0; oi < 4; oi++ {
 			o := gram.LayoutOpts{NoSemicolon: oi&1 != 0, RepeatLHS: oi&2 != 0}
 			if small && strings.Contains(n.Name, "#") && oi != 0 && oi != 3 {
@@ -157,7 +166,7 @@ func c10Work(w *Worker) {
 					emit(&c10Case{Origin: n.Name, Spec: n.Spec, Opts: o, Seps: map[int]string{gi: sp}})
 				}
 			}
-			if w.Thorough() && si < 6 {
+			if w.Thorough() && si < 7 {
 				for gi, a1 := range atoms {
 					for gj := gi + 1; gj < len(atoms); gj++ {
 						a2 := atoms[gj]
